@@ -180,7 +180,10 @@ class HarnessGen:
                 continue
             ct = self.lw.ctype(t) if not isinstance(t, CType) else t
             nm = self.new_input(ct, 'ghost ' + g)
-            L.append('  QX_INPUT(%s, %s); %s = %s;' % (ct.cast(), nm, g, nm))
+            if g in self.fixed:
+                L.append('  QX_FIXED(%s, %s, %s); %s = %s;' % (ct.cast(), nm, self.fixed[g], g, nm))
+            else:
+                L.append('  QX_INPUT(%s, %s); %s = %s;' % (ct.cast(), nm, g, nm))
         args = []
         later = []
         alias = spec.get('harness_alias', {})
